@@ -417,3 +417,47 @@ impl PD {
 }
 
 pub fn laurent_invert(a: &Laurent) -> Laurent { a.iter().map(|(e, c)| (-e, c.clone())).collect() }
+
+impl PD {
+    /// Reidemeister II by search: push the strand on edge `e` across the strand on edge `f` (two new crossings,
+    /// the same strand on top at both). All 16 ways of writing the two crossing codes (which strand is on
+    /// top, parallel / antiparallel pairing, cyclic order at each crossing) are generated; a candidate is
+    /// accepted only if it is a valid planar diagram with the same number of components and the same
+    /// bracket polynomial as `self` — so the result is sound with respect to the oracle by construction.
+    /// Returns None when e and f do not lie on a common face (no candidate is planar).
+    pub fn r2_search(&self, e: usize, f: usize, pick: usize) -> Option<PD> {
+        if e == f { return None }
+        let (out, _) = self.orientation(0).ok()?;
+        let ends = self.ends();
+        let (ve, vf) = (ends.get(&e)?, ends.get(&f)?);
+        if ve[0] == ve[1] || vf[0] == vf[1] { return None }
+        let head = |v: &Vec<(usize, usize)>| if !out[v[0].0][v[0].1] { v[0] } else { v[1] }; // the end where the strand arrives
+        let (he, hf) = (head(ve), head(vf));
+        let m = self.max_label();
+        let (e1, e2, f1, f2) = (m + 1, m + 2, m + 3, m + 4); // e -> e, e1, e2 ; f -> f, f1, f2 along the orientation
+        let j0 = self.jones().ok()?;
+        let nc = self.components().len();
+        let mut found = vec![];
+        for cfg in 0..16u32 {
+            let e_over = cfg & 1 == 1;
+            let parallel = cfg & 2 == 2;
+            let (s1, s2) = (cfg & 4 == 4, cfg & 8 == 8);
+            // first crossing: e-segment (e -> e1); second: (e1 -> e2). f-segments: parallel: (f -> f1), (f1 -> f2); antiparallel: (f1 -> f2), (f -> f1)
+            let fa = if parallel { (f, f1) } else { (f1, f2) };
+            let fb = if parallel { (f1, f2) } else { (f, f1) };
+            let code = |u: (usize, usize), o: (usize, usize), flip: bool| -> [usize; 4] { if flip { [u.0, o.0, u.1, o.1] } else { [u.0, o.1, u.1, o.0] } };
+            let (c1, c2) = if e_over { (code(fa, (e, e1), s1), code(fb, (e1, e2), s2)) } else { (code((e, e1), fa, s1), code((e1, e2), fb, s2)) };
+            let mut p = self.clone();
+            p.x[he.0][he.1] = e2;
+            p.x[hf.0][hf.1] = f2;
+            // if both heads are the same end list entry (cannot be: e != f) fine
+            p.x.push(c1); p.x.push(c2);
+            p.neg.push(false); p.neg.push(false);
+            if p.validate().is_err() || p.n_free() != self.n_free() { continue }
+            if p.components().len() != nc { continue }
+            if p.jones().ok().as_ref() != Some(&j0) { continue }
+            found.push(p);
+        }
+        if found.is_empty() { None } else { let k = pick % found.len(); Some(found.swap_remove(k)) }
+    }
+}
